@@ -75,6 +75,13 @@ func Serve(sockpath, dbpath string, opts ServeOpts) int {
 		verifPause("daemon:listen-failed", opts.Ready)
 		return 2
 	}
+	// Remember which file is our socket, and remove it explicitly (rather than
+	// as a side effect of closing the listener) so that we never remove a
+	// socket file that another daemon has since created at the same path.
+	if ul, ok := listener.(*net.UnixListener); ok {
+		ul.SetUnlinkOnClose(false)
+	}
+	sockInfo, sockInfoErr := os.Lstat(sockpath)
 	verifPause("daemon:listened", opts.Ready)
 
 	st, err := store.NewStore(dbpath)
@@ -161,8 +168,9 @@ loop:
 	}
 
 	verifPause("daemon:before-remove-socket", opts.Ready)
-	err = os.Remove(sockpath)
-	if err != nil {
+	if curInfo, err := os.Lstat(sockpath); sockInfoErr != nil || err != nil || !os.SameFile(sockInfo, curInfo) {
+		logger.Printf("socket %s is no longer the one created by this daemon, not removing it", sockpath)
+	} else if err := os.Remove(sockpath); err != nil {
 		logger.Printf("failed to remove socket %s: %v", sockpath, err)
 	}
 	if st != nil {
